@@ -126,6 +126,13 @@ def grid_cases(versions):
                 req = {"v": list(v), "cont": "CONTINUE",
                        "items": [litem, _hist.placeholder_item(pop, v), {"op": "GetAttributes"}]}
                 cases.append({"label": "Batch/Locate-%s+%s" % (ll, pop), "reqs": [req]})
+        # whatever can be stored can be read back: every creating request of the store menu
+        # followed, in the same batch, by identifier-less Get / GetAttributes / GetAttributeList
+        for label, item in M.store_menu(idx, v):
+            if item.get("op") in ("Register", "Create", "CreateKeyPair", "DeriveKey"):
+                req = {"v": list(v), "cont": "CONTINUE",
+                       "items": [item, {"op": "Get"}, {"op": "GetAttributes"}, {"op": "GetAttributeList"}]}
+                cases.append({"label": "Batch/store-then-read/" + label, "reqs": [req]})
         # an item that has read the object (attributes, names, ... are loaded into the request's
         # database session) in front of every object-addressing request, in ONE batch
         hotk = idx["SymmetricKey/ACTIVE"]
